@@ -33,7 +33,8 @@ RULE = (
     "inode), touch, delete, recreate, chmod, each followed by a harness clock step (os.utime; drawn "
     "delta >= 1 us forwards/backwards, or the pre-mutation mtime, or an earlier mtime of the path; "
     "re-stepped until the (inode, mtime, size) triple seen through fs.info was never held by that "
-    "path before). Queries: State.get, State.get_many over batches of size "
+    "path before); a content mutation may be preceded by an honest hash_file run on that path and "
+    "followed at once by a lookup of it through one drawn route. Queries: State.get, State.get_many over batches of size "
     "{0,1,2,3..8,998,999,1000,1001,2500} (live files at drawn positions among padding files that "
     "are saved once per history: most valid, some unsaved / other algorithm / newer version / "
     "deleted), hash_file(state=), build() of a file or the directory on a store carrying the state, "
